@@ -151,7 +151,9 @@ def strategy_(d, tier):
             break
         r = seq[i]
         if r == "fill":
-            fam = d.weighted([(5, (0, 3)), (3, (120, 131)), (2, (250, 259)), (1, (4, 40))])
+            # 120..131: forward short-branch limits (distance = filler); 114..123: the backward ones (distance =
+            # filler + two 4 byte markers + the 2 byte branch: -128 at 118, -129 at 119)
+            fam = d.weighted([(5, (0, 3)), (3, (120, 131)), (3, (114, 123)), (2, (250, 259)), (1, (4, 40))])
             items.append(["fill", d.int(fam[0], fam[1])])
         elif r == "oddlab":
             items.append(["fill", d.choice([1, 3, 5])])
@@ -159,6 +161,20 @@ def strategy_(d, tier):
             kind = d.choice(KINDS[tn])
             items.append(["ref", kind, d.choice(labs), rid])
             rid += 1
+    aimed = {"68000": ["bra", "bsr", "bcc"], "68020": ["bra", "bsr", "bcc"], "8086": ["bra"]}.get(tn)
+    if aimed and d.bool(0.5):
+        # an auto-sized branch aimed at the short/long threshold: only a filler stands between the branch and its
+        # own label, so the distance in the final layout is known (backward: filler + two 4 byte markers + the
+        # 2 byte short form; forward: the filler)
+        disp = d.choice([-131, -130, -129, -128, -127, -126, 125, 126, 127, 128, 129, 130])
+        kind = d.choice(aimed)
+        if disp < 0:
+            trip = [["lab", nlab], ["fill", -disp - 10], ["ref", kind, nlab, rid]]
+        else:
+            trip = [["ref", kind, nlab, rid], ["fill", disp], ["lab", nlab]]
+        rid += 1
+        at = d.int(0, len(items))
+        items[at:at] = trip
     if tn == "6809" and d.bool(0.5):
         # direct page assumptions in the middle of the code: auto-sized operands in front of them must not be
         # assembled with the page a later ASSUME (of this or of the previous pass) sets
